@@ -64,6 +64,13 @@ CHECKS["C05"] = dict(
     note="Trusted: spec.conv_assign (written from the statement), VHDL-subset semantics, z3. Vector truthiness and slices of typed vectors are outside (statement silent). Port connections are exercised by C12.",
     technique="accept/reject matrix + z3 value-preservation proof per accepted cell",
 )
+CHECKS["C17"] = dict(
+    category="translation_validation",
+    text="Bank of serialisable type compositions (primitives; records nested / inherited / templated / with bool, enum and array fields; std.Array incl. nested and of records; std.Enum, FlagEnum; SFixed/UFixed; Serialized[T]; BitField incl. nested): for each, z3 proves for ALL bit patterns / field values that to_bits(from_bits[T](b)) == b, each field of from_bits[T](b) is exactly its documented bit range (first field / element 0 at the LSBs), to_bits of a value built from fields is the documented concatenation, from_bits(to_bits(x)) == x, count_bits(T) is the documented width, and BitField reads/writes touch exactly their range.",
+    design_ref="DESIGN.md 3/C17",
+    note="Trusted: VHDL-subset semantics, layout rule of the statement, z3. Total width <= 8 bits per type; emitted-logic side only (the Python-constant side runs the same std functions over the primitives C09 decides).",
+    technique="bounded symbolic translation validation (z3) of serialisation cells against the documented layout",
+)
 NA = {}
 manifest = {
     "version": 1,
